@@ -665,7 +665,7 @@ def contains(it, fr, container, x):
                 raise PyExc(ex)
         return SBool(zor([val_eq(it, fr, x, y) for y in container]))
     if isinstance(container, (dict, set, frozenset)):
-        if isinstance(x, Sym):
+        if has_sym(x):
             check_hashable(x)
             return SBool(zor([key_eq(it, fr, x, k) for k in container]))
         try:
@@ -828,6 +828,11 @@ def sym_order(it, fr, o, l, r):
         raise PyExc(TypeError(f"'{o}' not supported between instances of '{tl.__name__}' and '{tr.__name__}'"))
     if issubclass(tl, str) and (isinstance(l, SStr) or isinstance(l, str)) and (isinstance(r, SStr) or isinstance(r, str)):
         return SBool(str_order(it, o, l, r))
+    if issubclass(tl, (set, frozenset)):
+        a, b = set_items(l), set_items(r)
+        sub = zand([zor([val_eq(it, fr, x, y) for y in b]) for x in a])      # l <= r
+        sup = zand([zor([val_eq(it, fr, x, y) for y in a]) for x in b])      # l >= r
+        return SBool({'<=': sub, '>=': sup, '<': z3.And(sub, z3.Not(sup)), '>': z3.And(sup, z3.Not(sub))}[o])
     raise Unsupported(f'ordering of symbolic {tl.__name__}')
 
 
@@ -1604,6 +1609,25 @@ def list_method(it, fr, l, name, args, kw):
     raise PyExc(AttributeError(f"'list' object has no attribute '{name}'"))
 
 
+def rebind(it, fr, old, new):
+    """a concrete container had to become symbolic: replace it where the interpreter can reach it"""
+    hit = False
+    gc = getattr(it, 'global_containers', None)
+    if gc and id(old) in gc:
+        key = gc[id(old)]
+        gc[id(new)] = key
+        it.shadow_globals[key] = new
+        hit = True
+    f = fr
+    while f is not None:
+        for n, x in list(f.env.items()):
+            if x is old:
+                f.env[n] = new
+                hit = True
+        f = f.parent
+    return hit
+
+
 def set_method(it, fr, s, name, args, kw):
     args = [fr.split(a) for a in args]
     if name == 'add':
@@ -1612,9 +1636,11 @@ def set_method(it, fr, s, name, args, kw):
         if isinstance(s, SSet):
             s.items.append(args[0])
             return None
-        if isinstance(args[0], Sym):
-            gc = getattr(it, 'global_containers', None)
-            raise Unsupported('add of symbolic element to concrete set')
+        if has_sym(args[0]):
+            n = SSet(list(s) + [args[0]])
+            if not rebind(it, fr, s, n):
+                raise Unsupported('add of symbolic element to a concrete set that cannot be rebound')
+            return None
         s.add(args[0])
         return None
     if name == '__contains__':
